@@ -119,7 +119,7 @@ pub struct Execution {
 
 /// Run `program` (one op list per thread) on `mem` under the given schedule prefix.
 /// `prefix[i]` = thread to grant at step i (if runnable); beyond the prefix the lowest runnable id.
-pub fn run_controlled(mem: &Memfs, program: &[Vec<Op>], prefix: &[usize]) -> Execution {
+pub fn run_controlled<V: VirtualFileSystem + Sync>(mem: &V, program: &[Vec<Op>], prefix: &[usize]) -> Execution {
     let n = program.len();
     let s = Session::new(n);
     let results: Mutex<Vec<CallRec>> = Mutex::new(vec![]);
